@@ -29,6 +29,7 @@ REACH = [
 def cfg_for(gated: set) -> pg.GenCfg:
     forms = pg.ALL_REEXPORT_FORMS
     cfg = pg.GenCfg()
+    cfg.twins = True
     cfg.reexport_forms = tuple(f for f in forms if f"reexport:{f}" not in gated)
     cfg.p_private_decl = 0.4
     cfg.p_private_mod = 0.35
@@ -46,7 +47,27 @@ def gen(tier: str, seed: int) -> list[Case]:
         pkg = pg.random_pkg(rng, cfg)
         opts = ["-nc"] if i % 2 == 1 else []
         cases.append(Case(cid=f"c04-{i}", files=pg.render(pkg), opts=opts, meta={"pkg": pkg}, reach=REACH))
+    for name, pkg in scenarios().items():
+        for nc in (False, True):
+            cases.append(Case(cid=f"c04-scn-{name}-{int(nc)}", files=pg.render(pkg), opts=["-nc"] if nc else [], meta={"pkg": pkg}, reach=REACH))
     return cases
+
+
+def scenarios() -> dict:
+    """Deterministic layouts aimed at the name matching of the re-export logic (run on every seed)."""
+    out = {}
+    # private modules of the same name in two packages; only the one in the parent package is re-exported
+    # (by alias, by name and as a module alias): nothing of the other one may become public
+    pkg = pg.Pkg()
+    a = pg.Mod(("pk",), "_implmod", decls=[pg.Fn("_makething", [pg.Param("shownparam", "int")], "int"), pg.Cls("ShownThing", methods=[pg.Fn("shownmethod", role="inst")])])
+    b = pg.Mod(("pk", "subpart"), "_implmod", decls=[pg.Fn("_makething", [pg.Param("hiddenparam", "int")], "int"), pg.Cls("ShownThing", methods=[pg.Fn("hiddenmethod", role="inst")]), pg.Fn("hiddenhelper")])
+    c = pg.Mod(("pk",), "_toolsmod", decls=[pg.Fn("showntool"), pg.Cls("ShownTool", methods=[pg.Fn("run", role="inst")])])
+    d = pg.Mod(("pk", "subpart"), "_toolsmod", decls=[pg.Fn("hiddentool"), pg.Cls("HiddenTool", methods=[pg.Fn("run", role="inst")])])
+    e = pg.Mod(("pk", "subpart"), "plainmod", decls=[pg.Fn("plainfunction")])
+    pkg.modules += [a, b, c, d, e]
+    pkg.inits[("pk",)] = [pg.Reexport("name", "pk._implmod", "_makething", "makething", "rel"), pg.Reexport("name", "pk._implmod", "ShownThing", None, "rel"), pg.Reexport("modalias", "pk._toolsmod", None, "tools", "rel")]
+    out["same-named-private-modules"] = pkg
+    return out
 
 
 def make_judge(chk: Check):
